@@ -194,6 +194,18 @@ pub fn generate(rng: &mut Rng, opts: &GenOpts, tag: &str) -> Value {
             };
         }
     }
+    // occasionally one connection that is longer than the planning horizon / than 1000 km (the
+    // loader reduces such values and says so)
+    if nloc >= 2 && matches!(p, Profile::NonMetric | Profile::Mixed | Profile::Depots) && rng.chance(1, 6) {
+        let i = rng.usize(0, nloc - 1);
+        let k = (i + rng.usize(1, nloc - 1)) % nloc;
+        if rng.chance(2, 3) {
+            durations[i][k] = rng.range(26, 40) * 3600;
+        }
+        if rng.chance(1, 2) {
+            distances[i][k] = rng.range(1100, 3000) * 1000;
+        }
+    }
     // "indices" in a shuffled order, to exercise the index mapping
     let mut order: Vec<usize> = (0..nloc).collect();
     if rng.chance(1, 2) {
